@@ -33,3 +33,47 @@ def relayout(rng, arr, which=None):
     if which == "reversed-twice":                       # negative strides
         return a[::-1].copy()[::-1], which
     return a.copy(), which
+
+
+INT_DTYPES = [np.int8, np.uint8, np.int16, np.uint16, np.int32, np.uint32, np.int64, np.uint64]
+
+
+def int_dtypes_for(arr):
+    """integer dtypes that hold every value of the (integer-valued, finite) array exactly"""
+    a = np.asarray(arr, float)
+    if a.size == 0 or not np.all(np.isfinite(a)) or not np.all(a == np.round(a)):
+        return []
+    lo, hi = float(a.min()), float(a.max())
+    out = []
+    for dt in INT_DTYPES:
+        ii = np.iinfo(dt)
+        if ii.min <= lo and hi <= ii.max and hi < 2.0 ** 53:
+            out.append(dt)
+    return out
+
+
+def as_int_dtype(rng, arr, narrow_bias=0.6):
+    """the integer-valued array in one of the integer dtypes that can hold it (8-bit images give uint8 filtration values, label
+    maps int16, ...); narrow types preferred with probability narrow_bias. returns (array, dtype name) or (None, None)"""
+    cands = int_dtypes_for(arr)
+    if not cands:
+        return None, None
+    narrow = [d for d in cands if np.dtype(d).itemsize <= 2]
+    dt = narrow[int(rng.integers(0, len(narrow)))] if (narrow and rng.random() < narrow_bias) else cands[int(rng.integers(0, len(cands)))]
+    return np.asarray(arr, float).astype(dt), np.dtype(dt).name
+
+
+def near_limit_int_diagram(rng, n, dtypes=(np.int8, np.uint8, np.int16, np.uint16, np.int32), positive_length=True):
+    """an (n,2) birth/death array in a narrow integer dtype with values spread over most of the dtype's range (an 8-bit image gives
+    uint8 filtration values up to 255, signed data int8 / int16 values of both signs): differences and sums of such values do not
+    fit the dtype itself.  returns (integer array, float64 array of the same values, dtype name)"""
+    dt = dtypes[int(rng.integers(0, len(dtypes)))]
+    ii = np.iinfo(dt)
+    lo, hi = int(ii.min * 0.95), int(ii.max * 0.95)
+    b = rng.integers(lo, hi, size=n)
+    d = np.array([int(rng.integers(x + (1 if positive_length else 0), hi + 1)) for x in b])
+    if n >= 2:                                   # make sure the extremes are present: one long bar, one short bar high up
+        b[0], d[0] = lo, hi
+        b[1], d[1] = hi - max(1, (hi - lo) // 50), hi
+    arr = np.column_stack([b, d])
+    return arr.astype(dt), arr.astype(float), np.dtype(dt).name
